@@ -1,6 +1,7 @@
 """C02 -- transparency: a print that never touches an enabled region is forwarded verbatim (E1)."""
 from ..engine import Scenario
 from ..world import World, stays_clear
+from . import c08 as _c08   # registers the D16 predicate
 
 NONTRIVIAL = {"verbatim:G0", "verbatim:G1", "verbatim:G2", "verbatim:G3", "verbatim:G10", "verbatim:G11",
               "verbatim:G92", "verbatim:G20", "verbatim:G21", "verbatim:G90", "verbatim:G91", "verbatim:G4",
@@ -55,4 +56,9 @@ def scenarios(tier):
                             [("TRAVEL", "O1"), ("TRAVEL", "O2"), ("PRINT", "O3"), ("TRAVEL", "H"), ("RETRACT",),
                              ("RECOVER",), ("ZMOVE", 2), ("RAW", "M117 hello")] + MODES,
                             max_depth=5 if q else 8, max_states=3000000))
+    out.append(Scenario("c02-g92", World, dict(prop="C02", monitors=("c02",), regions=["R"], emax=1, guard=stays_clear),
+                        [("TRAVEL", "O1"), ("TRAVEL", "O2"), ("PRINT", "O3"), ("TRAVEL", "N"), ("G92XYZ", 16, -8, 3)],
+                        max_depth=4, finding="D16",
+                        note="dedicated to known finding D16: after a G92 X/Y/Z re-basing moves that never touch the "
+                             "region are suppressed"))
     return out
